@@ -467,12 +467,79 @@ pub fn run(cfg: &RunCfg, rep: &mut Report) {
         };
         dispatch_case(cx, &frag, cmp.rep, i);
     }
+    // Part C: the leaf constructors (used by the parser and the script decoder instead of the
+    // rule dispatcher) must label their fragment exactly as the dispatcher does
+    constructors_case::<BareCtx>(cmp.rep, "bare");
+    constructors_case::<Legacy>(cmp.rep, "legacy");
+    constructors_case::<Segwitv0>(cmp.rep, "segwitv0");
+    constructors_case::<Tap>(cmp.rep, "tap");
     if cmp.rep.samples.is_empty() {
         cmp.rep.sample(format!(
             "reachable types: {} e.g. {}",
             reach.len(),
             reach.iter().take(12).map(|t| t.type_string()).collect::<Vec<_>>().join(" ")
         ));
+    }
+}
+
+fn constructors_case<Ctx: ScriptContext>(rep: &mut Report, cx: &str) {
+    use miniscript::bitcoin::hashes::{hash160, Hash};
+    use miniscript::miniscript::types::ExtData;
+    use miniscript::{AbsLockTime, RelLockTime, Threshold};
+    let k = |n: usize| format!("K{}", n);
+    let h32 = "aa".repeat(32);
+    let h20 = "bb".repeat(20);
+    let mut items: Vec<(&str, Miniscript<String, Ctx>)> = vec![
+        ("TRUE", Miniscript::TRUE),
+        ("FALSE", Miniscript::FALSE),
+        ("pk_k", Miniscript::pk_k(k(1))),
+        ("pk_h", Miniscript::pk_h(k(1))),
+        ("expr_raw_pkh", Miniscript::expr_raw_pkh(hash160::Hash::from_byte_array([7; 20]))),
+        ("sha256", Miniscript::sha256(h32.clone())),
+        ("hash256", Miniscript::hash256(h32.clone())),
+        ("ripemd160", Miniscript::ripemd160(h20.clone())),
+        ("hash160", Miniscript::hash160(h20.clone())),
+    ];
+    for v in [1u32, 16, 17, 65_535, 65_536, 499_999_999, 500_000_000, 0x7fff_ffff] {
+        if let Ok(t) = AbsLockTime::from_consensus(v) {
+            items.push(("after", Miniscript::after(t)));
+        }
+        if let Ok(t) = RelLockTime::from_consensus(v) {
+            items.push(("older", Miniscript::older(t)));
+        }
+    }
+    for (kk, n) in [(1usize, 1usize), (1, 2), (2, 3), (3, 3), (1, 20), (20, 20)] {
+        let keys: Vec<String> = (0..n).map(k).collect();
+        if let Ok(t) = Threshold::<String, 20>::new(kk, keys.clone()) {
+            items.push(("multi", Miniscript::multi(t.clone())));
+            items.push(("sortedmulti", Miniscript::sortedmulti(t)));
+        }
+        if let Ok(t) = Threshold::<String, 999>::new(kk, keys) {
+            items.push(("multi_a", Miniscript::multi_a(t.clone())));
+            items.push(("sortedmulti_a", Miniscript::sortedmulti_a(t)));
+        }
+    }
+    for (name, ms) in items {
+        rep.eval();
+        let r = guarded(std::panic::AssertUnwindSafe(|| (Type::type_check(&ms.node).ok(), ExtData::type_check(&ms.node))));
+        match r {
+            Err(m) => rep.violation(0, format!("C05:panic:type_check:{}", norm_loc(&last_panic_loc())), format!("type_check panicked ({}) on the node built by Miniscript::{} [{}]", m, name, cx)),
+            Ok((Some(t), e)) => {
+                if t != ms.ty {
+                    rep.violation(
+                        0,
+                        format!("C05:constructor-type-differs:{}", name),
+                        format!("Miniscript::{} [{}] labels {} as {} but the rule dispatcher gives {}", name, cx, ms, from_lib(&ms.ty).type_string(), from_lib(&t).type_string()),
+                    );
+                } else if e != ms.ext {
+                    rep.violation(0, format!("C05:constructor-extdata-differs:{}", name), format!("Miniscript::{} [{}] on {}: {:?} vs the dispatcher's {:?}", name, cx, ms, ms.ext, e));
+                } else {
+                    rep.count("constructor-labels-equal-dispatcher");
+                    rep.nontrivial(&format!("ctor|{}|{}|{}", cx, name, ms));
+                }
+            }
+            Ok((None, _)) => rep.count("constructor-node-rejected-by-dispatcher"),
+        }
     }
 }
 
